@@ -469,9 +469,12 @@ func (gen *Generator) GenerateCond(args []Sexp) error {
 }
 
 func (gen *Generator) GenerateQuote(args []Sexp) error {
-	for _, expr := range args {
-		gen.AddInstruction(PushInstr{expr})
+	if len(args) != 1 {
+		// every form leaves exactly one value: pushing one operand per
+		// argument would leave the extra ones behind on the data stack.
+		return WrongNargs
 	}
+	gen.AddInstruction(PushInstr{args[0]})
 	return nil
 }
 
@@ -810,6 +813,11 @@ func (gen *Generator) GenerateAssignment(expr *SexpPair, assignPos int) error {
 	// of return value flow, rather than exact lhs to rhs count equality.
 
 	for i := range rhs {
+		if i > 0 {
+			// each def leaves its value; only the last one is
+			// the value of the whole assignment.
+			gen.AddInstruction(PopInstr(0))
+		}
 		err = gen.GenerateDef([]Sexp{lhs[i], rhs[i]}, "def")
 		if err != nil {
 			return err
